@@ -273,7 +273,46 @@ theorem C02_tee_transparent (cfg : Cfg) (env : Env) (st0 : Mask) (i : Input) (fu
 /-- negotiating never changes the configuration captured by the feature value -/
 theorem C02_feature_value_unchanged (cfg : Cfg) (env : Env) (st0 : Mask) (i : Input) (fuel : Nat) :
     capturedAfter cfg env st0 i fuel = env.captured :=
-  (run_names cfg env st0 i fuel).2
+  (run_names cfg env st0 i fuel).2.1
+
+/-! ### The session's own address is not the peer's to choose
+
+`Session.LocalAddr()` is `Session.in.Info.To`, and the negotiator assigns the stream info from
+every header it accepts (`*in = newIn`); `StartTLS(nil)` names `LocalAddr().Domain()`.  The peer
+writes that header — before TLS anyone on the path does. -/
+
+/-- **A header is accepted only if its `to` is absent or the address the session already has, and
+its `from` is absent or the remote address** — in every session state, secured or not (the check
+does not depend on the state at all). -/
+theorem C02_header_address_check (f : HFrom) (t : Option Addr) (s : Sess) :
+    (∀ s', acceptHdr f t s = .ok () s' → f ≠ .differ ∧ (t = none ∨ t = some s.laddr) ∧ s' = s) ∧
+    (f = .differ ∨ (∃ a, t = some a ∧ a ≠ s.laddr) → acceptHdr f t s = .stop (.err .proto) s) := by
+  rw [acceptHdr_eq]
+  constructor
+  · intro s' h
+    split at h
+    · next hc =>
+      cases h
+      have hc' : (f != HFrom.differ) = true ∧ ((t == none) = true ∨ (t == some s.laddr) = true) := by
+        simpa [hdrAccepted] using hc
+      refine ⟨by simpa using hc'.1, ?_, rfl⟩
+      rcases hc'.2 with h1 | h1
+      · exact .inl (by simpa using h1)
+      · exact .inr (by simpa using h1)
+    · cases h
+  · intro h
+    have : hdrAccepted f t s.laddr = false := by
+      rcases h with rfl | ⟨a, rfl, hne⟩
+      · simp [hdrAccepted]
+      · simp [hdrAccepted, hne]
+    rw [this]; rfl
+
+/-- **The own address is fixed.**  Whatever headers the peer sends — any `to`, any number of
+restarts, in clear text or inside TLS — `LocalAddr()` after the call (on a session or after an
+error) is the address the session was created with. -/
+theorem C02_own_address_fixed (cfg : Cfg) (env : Env) (st0 : Mask) (i : Input) (fuel : Nat) :
+    localAfter cfg env st0 i fuel = ownAddr env st0 :=
+  (run_names cfg env st0 i fuel).2.2
 
 /-- every ClientHello of a session names the server of the explicit configuration, or — with
 `StartTLS(nil)` — the domain of the session's own address (whatever the peer does, whether the
